@@ -315,6 +315,7 @@ func cmdV3Env(args []string) {
 			rec.Add(v3EventBody(ver, &v, "E", o.e.Score(), o.e.Severity().String(), false), "dec=E vector="+s)
 		}
 	})
+	evalD += v3ExtraPass(recs[0], newRand(79), "E")
 	all := NewRecorder()
 	for _, r := range recs {
 		all.Merge(r)
